@@ -113,9 +113,11 @@ theorem evalNode_obj (ef : Node → St → Res × St) (hef : CalleeObj env ef) :
   unfold evalNode
   split
   · split
-    · exact objGrow_hitEdge s n
+    · split
+      · exact objGrow_hitEdge s n
+      · exact (hef n s).trans (ObjGrow.of_gn (keepExc_excOnly s _).gn)
     · exact (hef n s).trans (ObjGrow.of_gn (keepExc_excOnly s _).gn)
-  · exact (hef n s).trans (ObjGrow.of_gn (keepExc_excOnly s _).gn)
+  · exact ObjGrow.of_gn rfl
 
 theorem runN_obj : ∀ d, CalleeObj env (runN env d) := by
   intro d
